@@ -60,6 +60,11 @@ def cli_run(prop, tier):
     return cli.run_cli(prop, tier)
 
 
+def cli_twin_run(prop, tier):
+    from . import cli
+    return cli.run_cli_twin(prop, tier)
+
+
 PARSER_MC = [mc("MC_Parser", "MC_Parser.cfg", workers=6),
              mc("MC_Parser", "MC_Parser_cap.cfg", workers=6, tier="thorough"),
              mc("MC_Parser", "MC_Parser_deep.cfg", workers=8, tier="thorough"),      # n <= 4, k <= 5
@@ -223,6 +228,8 @@ PLANS = {
 # resetting the parser) alters what "a line is accepted" means for its users
 for _pid in ("C02", "C05", "C06", "C08", "C09"):
     PLANS[_pid]["custom"] = list(PLANS[_pid].get("custom", [])) + [dict(run=cli_run)]
+
+PLANS["C17"]["custom"] = list(PLANS["C17"].get("custom", [])) + [dict(run=cli_twin_run)]
 
 # every check also runs the common core on the std and the no-allocator build
 for _pid, _plan in PLANS.items():
